@@ -55,6 +55,9 @@ class Origin:
             return ("const", op["v"] if "sv" not in op else op["sv"], op["ty"])
         if "str" in op:
             return ("str", op["str"])
+        if "pv" in op and op["ty"].startswith("&") and not op["ty"].startswith("&[") and "str" not in op["ty"]:
+            # reference to a small constant (promoted `&CONST`): the pointee's little-endian value
+            return ("const", op["pv"], op["ty"].lstrip("&").strip())
         if "bytes" in op:
             return ("str", op["bytes"])
         if op["ty"] == "()":
